@@ -247,6 +247,26 @@ def execute(stream, segs, deferred=False):
     return rec.reqs, out, closed, logs, errs
 
 
+def execute_app(stream):
+    """The same stream through an Application (a Router): the delegate chain web.py / routing.py puts between the
+    connection and the handler must not turn a refused request into an application error."""
+    from tornado import web
+    seen = []
+
+    class Any(web.RequestHandler):
+        def prepare(self):
+            seen.append((self.request.method, self.request.uri))
+            self.finish("ok")
+    with World() as w:
+        c = ServerConn(w, web.Application([(r".*", Any)]))
+        c.send_segments([stream])
+        c.eof()
+        w.pump()
+        logs = [r for r in w.logs.records if r[0] != "tornado.access" and r[1] in ("ERROR", "CRITICAL")]
+        errs = [str(x.get("message"))[:100] for x in w.loop_errors()]
+    return seen, logs, errs
+
+
 def ref_norm(item):
     _, method, target, version, headers, body = item
     hd = {}
@@ -348,6 +368,17 @@ class C01(Check):
         ref = ref_http.read_requests(stream)
         base = execute(stream, [stream])
         self.record(label, stream, [stream], base, ref, st)
+        if label.startswith(("host", "base-", "version:", "cl:", "te:")):
+            seen, logs, errs = execute_app(stream)
+            st.ev()
+            if logs or errs:
+                st.violation("application-server:error-log", "input %s %r through an Application: logged %r %r"
+                             % (label, stream[:60], [(r[1], r[2][:50], r[3]) for r in logs[:2]], errs[:1]),
+                             {"label": label, "stream": stream.decode("latin1"), "segs": [len(stream)], "app": True})
+            elif label.startswith("host") and "|" not in label and len(seen) != len(base[0]):
+                st.violation("application-server:delivered-%d-instead-of-%d" % (len(seen), len(base[0])),
+                             "input %s %r: the Application got %r, the plain callable %d requests" % (label, stream[:60], seen, len(base[0])),
+                             {"label": label, "stream": stream.decode("latin1"), "segs": [len(stream)], "app": True})
         base_key = (base[0], base[1], base[2])
         segs_list = []
         if len(stream) > 250:
